@@ -198,9 +198,9 @@ func init() {
 		ID: "C29",
 		Explanation: "Decides structural necessary conditions of 'cancellation never yields a wrong parse' on every generated parser package and the hand-written js parse loop: CANCEL: every loop that shifts tokens in a function taking a context polls ctx.Done(); every poll is governed by (sharedCounter & M) == 0 with M = 2^k-1 <= 0x1ff, and all sites of a package use the same mask (an equality+reset at one site is starved by increments at another). " +
 			"ERRFLOW: for every call of a function whose error may be ctx.Err() (computed as a fixpoint from `return ctx.Err()`), the error value reaches a return of the caller — it is neither discarded nor replaced by nil. " +
-			"Not decided: cancellation inside the lexer fetch, equality of events with an uncancelled parse (the poll branch only returns, which is checked by the shape of the select). ERRFLOW(must-return): in the generated ast.Parse wrappers a non-nil parser error (ctx.Err() included) is returned on every path from the err != nil test; no return with another error value is reachable.",
-		Rules: []string{"CANCEL", "ERRFLOW", "ERRFLOW(must-return)"},
-		Run:   func(c *Ctx) { ruleCANCEL(c); ruleERRFLOW(c); ruleERRMUST(c) },
+			"Not decided: cancellation inside the lexer fetch, equality of events with an uncancelled parse (the poll branch only returns, which is checked by the shape of the select). ERRFLOW(must-return): in the generated ast.Parse wrappers a non-nil parser error (ctx.Err() included) is returned on every path from the err != nil test; no return with another error value is reachable. MONOTONE(poll-counter): the counter whose low bits trigger the poll is only ever advanced by a positive constant; it (or the session holding it) is re-initialised only outside every loop. SOURCE(handler-identity): the generated ast.Parse passes the caller's ErrorHandler to Parser.Init unchanged.",
+		Rules: []string{"CANCEL", "ERRFLOW", "ERRFLOW(must-return)", "MONOTONE(poll-counter)", "SOURCE(handler-identity)"},
+		Run:   func(c *Ctx) { ruleCANCEL(c); ruleERRFLOW(c); ruleERRMUST(c); rulePOLLCOUNTER(c); ruleHANDLERID(c) },
 	})
 }
 
@@ -457,9 +457,9 @@ func init() {
 	register(&Property{
 		ID: "C28",
 		Explanation: "Decides structural necessary conditions of 'symbol names map to valid, distinct identifiers': REGISTER: every site in package compiler that creates a grammar.Symbol with an identifier looks it up in resolver.ids, raises the 'get the same ID' error under exactly the outcome 'already taken' (no further condition), and registers the same identifier (audited exception: mid-rule nonterminals). " +
-			"GUARD(leading-digit): ident.Produce inserts the underscore for a leading digit based on what has been written so far (buf.Len() == 0 inside the rune loop). Not decided: non-emptiness and validity of Produce's output in general (string computation). GUARD(explicit-id): every explicit lexeme id that reaches addToken is the result of ident.Produce(id, UpperCase); the raw spelling (which may contain hyphens or quotes) never does. GUARD(nonempty-id): every return of ident.Produce is a non-empty constant or buf.String() behind the `buf.Len() == 0` fallback.",
-		Rules: []string{"REGISTER", "GUARD(leading-digit)", "GUARD(explicit-id)", "GUARD(nonempty-id)"},
-		Run:   func(c *Ctx) { ruleREGISTER(c); ruleLEADINGDIGIT(c); ruleEXPLICITID(c); ruleNONEMPTYID(c) },
+			"GUARD(leading-digit): ident.Produce inserts the underscore for a leading digit based on what has been written so far (buf.Len() == 0 inside the rune loop). Not decided: non-emptiness and validity of Produce's output in general (string computation). GUARD(explicit-id): every explicit lexeme id that reaches addToken is the result of ident.Produce(id, UpperCase); the raw spelling (which may contain hyphens or quotes) never does. GUARD(nonempty-id): every return of ident.Produce is a non-empty constant or buf.String() behind the `buf.Len() == 0` fallback. FIELDCOV(taken-names): the set of taken names that keeps extracted mid-rule nonterminals (<nt>$<k>) apart from existing symbols is seeded with the names of all terminals, parameters and nonterminals (Expand creates <nt>$<k> helpers itself).",
+		Rules: []string{"REGISTER", "GUARD(leading-digit)", "GUARD(explicit-id)", "GUARD(nonempty-id)", "FIELDCOV(taken-names)"},
+		Run:   func(c *Ctx) { ruleREGISTER(c); ruleLEADINGDIGIT(c); ruleEXPLICITID(c); ruleNONEMPTYID(c); ruleTAKENNAMES(c) },
 	})
 }
 
@@ -502,14 +502,15 @@ func init() {
 	register(&Property{
 		ID: "C26",
 		Explanation: "Decides structural necessary conditions of 'graph algorithms return correct components, closures and paths' on util/graph: MINMAX(update): every low-link update of Tarjan compares against the cell it updates. SIBLING(tarjan-update): the update after the recursive descent propagates lowLink[child]. PAIR(scc-stack): a vertex is pushed and marked onStack on entry, a component is emitted exactly under lowLink[v] == index[v], its members are cleared from onStack before the stack is cut back. WARSHALL(pivot-outermost): Matrix.Closure tests HasEdge(x, pivot) and HasEdge(pivot, y) with the pivot in the outermost loop and adds (x, y). CODEC(matrix-cell): AddEdge/HasEdge address bit i*n+e and Graph decodes (v/n, v%n). TRANSPOSE(direction): for an edge from -> to, the list of `to` is sized by counting `to` and receives `from`. SENTINEL(dfs-height): LongestPath marks in-progress vertices with -1, sets the cycle flag exactly on meeting one, and returns nil under that flag. INPLACE(write-behind-read): no in-place filter of util/graph writes ahead of its read cursor. " +
-			"Not decided: that the components, closure and paths are the right ones on every graph (reverse topological order, maximality of the path) - algorithmic, quantified over runtime graphs. WARSHALL also requires that no return precedes the loops (all matrix sizes are computed); SENTINEL(dfs-height) also requires the dfs call to lie on every path of the loop over all vertices.",
-		Rules: []string{"MINMAX(update)", "SIBLING(tarjan-update)", "PAIR(scc-stack)", "WARSHALL(pivot-outermost)", "CODEC(matrix-cell)", "TRANSPOSE(direction)", "SENTINEL(dfs-height)"},
+			"Not decided: that the components, closure and paths are the right ones on every graph (reverse topological order, maximality of the path) - algorithmic, quantified over runtime graphs. WARSHALL also requires that no return precedes the loops (all matrix sizes are computed); SENTINEL(dfs-height) also requires the dfs call to lie on every path of the loop over all vertices. LOOPRANGE(closure): each of the three loops of Matrix.Closure ranges over [0, m.n) exactly.",
+		Rules: []string{"MINMAX(update)", "SIBLING(tarjan-update)", "PAIR(scc-stack)", "WARSHALL(pivot-outermost)", "CODEC(matrix-cell)", "TRANSPOSE(direction)", "SENTINEL(dfs-height)", "LOOPRANGE(closure)"},
 		Run: func(c *Ctx) {
 			ruleMINMAX(c, "util/graph")
 			c.MinCount("MINMAX(update)", "util/graph.", 2)
 			ruleTARJANSIB(c)
 			ruleSCCSTACK(c)
 			ruleWARSHALL(c)
+			ruleCLOSURERANGE(c)
 			ruleMATRIXCELL(c)
 			ruleTRANSPOSE(c)
 			ruleLONGESTPATH(c)
@@ -521,8 +522,8 @@ func init() {
 	register(&Property{
 		ID: "C27",
 		Explanation: "Decides structural necessary conditions of 'line diffs are correct and minimal' on util/diff: GUARD(equal-empty): equal texts return the empty diff in the entry block. DTX(hunk-sizes): in hunk.add, leftSize grows exactly for lines that are not added ('+') and rightSize for lines that are not removed ('-'), so the @@ header describes the hunk. LOCKSTEP(chunk-merge): merging chunks adds del, ins and eq each (the script keeps covering both texts). SIBLING(trace-mirror): the len(a)==1 and len(b)==1 base cases of the edit-script recursion are mirror images (a<->b, del<->ins). INPLACE(write-behind-read): the in-place chunk merge of lcs never writes ahead of its read cursor. LOCKSTEP(hunk-origin): hunk.leftLine is derived from the old-text cursor only and hunk.rightLine from the new-text cursor only, by the same expression (a cursor-free value only where nothing was inserted or deleted before). MAXSEL(furthest-reaching): in both searches of middle, x = v[k+1] is chosen only under v[k-1] < v[k+1] strictly, otherwise v[k-1]+1 - the kept point is the furthest reaching one, a necessary condition of minimality. ARITH(abbreviation): the marker of an abbreviated run reports len - (head + tail) lines, and a run is abbreviated only when longer than head + 1 + tail lines. " +
-			"Not decided: minimality of the script as a whole (Myers' middle snake), that unequal texts render a non-empty diff, that the hunks apply - numerical/round-trip properties of runtime data. Remark: a run of more than 14 inserted or deleted lines is abbreviated by design ('... N lines skipped ...'), so for such runs the clause 'hunks apply' cannot hold; the checks state conditions of the unabbreviated path and the consistency of the abbreviation.",
-		Rules: []string{"GUARD(equal-empty)", "DTX(hunk-sizes)", "LOCKSTEP(chunk-merge)", "SIBLING(trace-mirror)", "INPLACE(write-behind-read)", "LOCKSTEP(hunk-origin)", "MAXSEL(furthest-reaching)", "ARITH(abbreviation)"},
+			"Not decided: minimality of the script as a whole (Myers' middle snake), that unequal texts render a non-empty diff, that the hunks apply - numerical/round-trip properties of runtime data. Remark: a run of more than 14 inserted or deleted lines is abbreviated by design ('... N lines skipped ...'), so for such runs the clause 'hunks apply' cannot hold; the checks state conditions of the unabbreviated path and the consistency of the abbreviation. SINK(diff-result): a caller that returns a diff returns the LineDiff result on every path (\"\" only under equality of the two texts), and the result is never (part of) the format string of a printf-style call ('generate --diff' prints hunks that still apply).",
+		Rules: []string{"GUARD(equal-empty)", "DTX(hunk-sizes)", "LOCKSTEP(chunk-merge)", "SIBLING(trace-mirror)", "INPLACE(write-behind-read)", "LOCKSTEP(hunk-origin)", "MAXSEL(furthest-reaching)", "ARITH(abbreviation)", "SINK(diff-result)"},
 		Run: func(c *Ctx) {
 			ruleDIFFEQUAL(c)
 			ruleHUNKSIZES(c)
@@ -532,6 +533,7 @@ func init() {
 			ruleHUNKORIGIN(c)
 			ruleFURTHEST(c)
 			ruleABBREV(c)
+			ruleDIFFSINK(c)
 		},
 	})
 }
